@@ -41,10 +41,15 @@ struct Runner {
         Tree& t = *tp;
         std::vector<V> store; store.reserve(keys.size() + xs.size() + 4);
         int salt = 3;
-        for (int p = 0; p < k; ++p) {
+        // the players are registered in ascending, descending or rotated order (the tree must not depend on player 0 coming first)
+        long long ksum = 0; for (int p = 0; p < k; ++p) ksum += keys[p];
+        const int order_mode = (int)((k + ksum) % 3);
+        for (int i = 0; i < k; ++i) {
+            int p = order_mode == 0 ? i : order_mode == 1 ? k - 1 - i : (i + k / 2) % k;
             if (keys[p] == 0) t.insert_start(nullptr, p, true);
-            else { store.emplace_back(conc(cmpk, keys[p], salt += 7)); t.insert_start(&store.back(), p, false); }
+            else { store.emplace_back(conc(cmpk, keys[p], 3 + 7 * (p + 1))); t.insert_start(&store.back(), p, false); }
         }
+        salt += 7 * k;
         t.init();
         auto w = [&]() { auto s = t.min_source(); return s == Tree::invalid_ ? -1LL : (long long)s; };
         long long win = w();
